@@ -335,10 +335,16 @@ func runHistory(t *testing.T, inst InstD, reqs []ReqD) (obs []ExecObs, start int
 				}
 				return r, e
 			}
-			ex := failsafe.NewExecutor[int](buildPolicies(rq.Stack, li)...).WithContext(ctx).
-				OnSuccess(func(e failsafe.ExecutionDoneEvent[int]) { log.done("ExecSuccess", 0, e) }).
-				OnFailure(func(e failsafe.ExecutionDoneEvent[int]) { log.done("ExecFailure", 0, e) }).
-				OnDone(func(e failsafe.ExecutionDoneEvent[int]) { log.done("ExecDone", 0, e) })
+			ex := failsafe.NewExecutor[int](buildPolicies(rq.Stack, li)...).WithContext(ctx)
+			if !rq.NoLsn[0] {
+				ex = ex.OnSuccess(func(e failsafe.ExecutionDoneEvent[int]) { log.done("ExecSuccess", 0, e) })
+			}
+			if !rq.NoLsn[1] {
+				ex = ex.OnFailure(func(e failsafe.ExecutionDoneEvent[int]) { log.done("ExecFailure", 0, e) })
+			}
+			if !rq.NoLsn[2] {
+				ex = ex.OnDone(func(e failsafe.ExecutionDoneEvent[int]) { log.done("ExecDone", 0, e) })
+			}
 			var res int
 			var err error
 			switch rq.Entry {
